@@ -1,6 +1,6 @@
 (* C13/Corr.v — helpers used only by the correspondence check (model vs implementation).
    Nothing here is used by a property theorem. *)
-From Coq Require Import ZArith QArith Qcanon List Bool Arith.
+From Coq Require Import ZArith NArith QArith Qcanon List Bool Arith.
 From AV.lib Require Import Sums QcInst.
 From AV.C13 Require Import Base Model.
 From AV.gen Require Import C13_Gen.
@@ -83,16 +83,21 @@ Definition check_interp (dim : nat) (a b : list nat * list Qc) (n : nat)
   | _, _ => false
   end.
 
-(* images as ids; per-atom distances between two images from a table ((a, b), distances);
-   a pair missing from the table gets a huge distance so that a diverging model is noticed *)
+(* images as ids (binary naturals N: cheap to compare); per-atom distances between two images from a
+   two-level table  a -> [(b, distances)];  a pair missing from the table gets a huge distance so
+   that a diverging model is noticed *)
 Definition far : Qc := qc 1000000000 1.
-Fixpoint dlookup (t : list (nat * nat * list Qc)) (a b : nat) : option (list Qc) :=
+Fixpoint assocN {A} (t : list (N * A)) (k : N) : option A :=
   match t with
   | [] => None
-  | (a', b', l) :: r => if Nat.eqb a a' && Nat.eqb b b' then Some l else dlookup r a b
+  | (k', v) :: r => if N.eqb k k' then Some v else assocN r k
   end.
-Definition dist_tab (t : list (nat * nat * list Qc)) (a b j : nat) : Qc :=
-  match dlookup t a b with Some l => nth j l far | None => far end.
+Definition dtable := list (N * list (N * list Qc)).
+Definition dist_tab (t : dtable) (a b : N) (j : nat) : Qc :=
+  match assocN t a with
+  | Some row => match assocN row b with Some l => nth j l far | None => far end
+  | None => far
+  end.
 
 Definition mdres_close (a b : mdres) : bool :=
   match a, b with
@@ -101,25 +106,33 @@ Definition mdres_close (a b : mdres) : bool :=
   | MDErr, MDErr => true
   | _, _ => false
   end.
-Definition check_maxdist (t : list (nat * nat * list Qc)) (idxs band : list nat) (expect : mdres) : bool :=
-  mdres_close (max_atom_distance nat (dist_tab t) idxs band) expect.
+Definition check_maxdist (t : dtable) (idxs : list nat) (band : list N) (expect : mdres) : bool :=
+  mdres_close (max_atom_distance N (dist_tab t) idxs band) expect.
 
-(* from_end_points calls recorded from the implementation: ((left id, right id, num), result ids) *)
-Fixpoint blookup (t : list (nat * nat * nat * option (list nat))) (l r n : nat) : option (list nat) :=
-  match t with
+(* from_end_points calls recorded from the implementation: left id -> [((right id, num), result ids)] *)
+Definition btable := list (N * list (N * nat * option (list N))).
+Fixpoint blookup_row (row : list (N * nat * option (list N))) (r : N) (n : nat) : option (list N) :=
+  match row with
   | [] => None
-  | (l', r', n', res) :: rest =>
-      if Nat.eqb l l' && Nat.eqb r r' && Nat.eqb n n' then res else blookup rest l r n
+  | (r', n', res) :: rest => if N.eqb r r' && Nat.eqb n n' then res else blookup_row rest r n
   end.
-Definition pres_eqb (a b : pres nat) : bool :=
+Definition blookup (t : btable) (l r : N) (n : nat) : option (list N) :=
+  match assocN t l with Some row => blookup_row row r n | None => None end.
+Fixpoint N_list_eqb (a b : list N) : bool :=
   match a, b with
-  | POk x, POk y => nat_list_eqb x y
+  | [], [] => true
+  | x :: a', y :: b' => N.eqb x y && N_list_eqb a' b'
+  | _, _ => false
+  end.
+Definition pres_eqb (a b : pres N) : bool :=
+  match a, b with
+  | POk x, POk y => N_list_eqb x y
   | PAssertion, PAssertion => true
   | PRuntimeError, PRuntimeError => true
   | PValueError, PValueError => true
   | POutOfFuel, POutOfFuel => true
   | _, _ => false
   end.
-Definition check_partition (dt : list (nat * nat * list Qc)) (bt : list (nat * nat * nat * option (list nat)))
-           (idxs : list nat) (max_delta : Qc) (band : list nat) (expect : pres nat) : bool :=
-  pres_eqb (partition nat (dist_tab dt) (blookup bt) 400 idxs max_delta band) expect.
+Definition check_partition (dt : dtable) (bt : btable)
+           (idxs : list nat) (max_delta : Qc) (band : list N) (expect : pres N) : bool :=
+  pres_eqb (partition N (dist_tab dt) (blookup bt) 400 idxs max_delta band) expect.
